@@ -81,6 +81,7 @@ def one_case(mon, rng, c):
 
     fz.broker.quote_token = USD
     led = Ledger()
+    flags = {}
     tok = {t.name: t for t in w.tokens}
 
     def idx(name, kind):
@@ -148,8 +149,12 @@ def one_case(mon, rng, c):
         exp_wallet = {}
         label = op
         if op == "supply":
-            res = Dr.call_op(m.supply, t, amt, True)
+            # the collateral flag is drawn once per position (a supply with the other flag is rejected, C04's subject)
+            flag = flags.get(name) if name in led.sup else (rng.random() < 0.7)
+            res = Dr.call_op(m.supply, t, amt, flag)
             if res.ok:
+                flags[name] = flag
+                label = "supply" if flag else "supply_plain"
                 led.sup[name] = led.sup.get(name, Fraction(0)) + F(amt) / idx(name, "s")
                 exp_wallet[name] = -F(amt)
         elif op in ("withdraw", "withdraw_all", "withdraw_part3"):
@@ -164,7 +169,7 @@ def one_case(mon, rng, c):
                     if name in {k.name for k in m.supply_keys}:
                         mon.violation("aave", "withdraw", "full-withdraw-still-listed", "", f"{name} still listed after withdraw(None)")
             else:
-                frac = Fraction(rng.randint(1, 30), 100) if led.bor else Fraction(rng.randint(1, 99), 100)
+                frac = Fraction(rng.randint(1, 30), 100) if (led.bor and flags.get(name, True)) else Fraction(rng.randint(1, 99), 100)
                 a = Decimal(str(float(cur * frac))).quantize(Decimal(10) ** -18)
                 if a <= 0:
                     continue
@@ -180,7 +185,7 @@ def one_case(mon, rng, c):
                     exp_wallet[name] = exp_wallet.get(name, Fraction(0)) + F(pa)
         elif op == "borrow":
             # 10 % of what the ledger says is borrowable, keeps HF comfortably above 1
-            coll = sum(led.sup[k] * idx(k, "s") * price(k) * F(w.risk[k]["ltv"]) for k in led.sup)
+            coll = sum(led.sup[k] * idx(k, "s") * price(k) * F(w.risk[k]["ltv"]) for k in led.sup if flags.get(k, True))
             debt = sum(led.bor[k] * idx(k, "b") * price(k) for k in led.bor)
             room = (coll - debt) * Fraction(rng.randint(1, 20), 100) / price(name)
             a = Decimal(str(float(room))).quantize(Decimal(10) ** -18) if room > 0 else Decimal(0)
